@@ -38,9 +38,16 @@ type patParser struct {
 // Expand replaces package aliases (ed., repo/) in a term or pattern string.
 func Expand(s string) string { return expandAliases(s) }
 
+// GlobalRenames maps the pinned full name of an unexported package-level variable to its current full name
+// (filled by the rules' anchor resolution); patterns are rewritten accordingly.
+var GlobalRenames = map[string]string{}
+
 func expandAliases(s string) string {
 	for k, v := range Aliases {
 		s = strings.ReplaceAll(s, k, v)
+	}
+	for k, v := range GlobalRenames {
+		s = strings.ReplaceAll(s, "global<"+k+">", "global<"+v+">")
 	}
 	return s
 }
@@ -547,6 +554,9 @@ func isStringTerm(t *Term) bool {
 var commutative = map[string]bool{"+": true, "*": true, "&": true, "|": true, "^": true, "==": true, "!=": true}
 
 var patCache = map[string]*pat{}
+
+// ResetPatterns drops parsed patterns (after GlobalRenames changed).
+func ResetPatterns() { patCache = map[string]*pat{} }
 
 // DefaultProg, when set by the driver, makes every Match pattern-guided
 // expansion-aware (see MatchX): a value computed inline or by an unexported
